@@ -29,6 +29,25 @@ Proof. destruct t; reflexivity. Qed.
 Lemma alias_of_strip t : alias_of (strip_all t) = None.
 Proof. destruct t; reflexivity. Qed.
 
+Lemma okind_strip t : okind_of (strip_all t) = okind_of t.
+Proof. destruct t; reflexivity. Qed.
+Lemma opc_strip sl t c : opc sl (strip_all t) c = opc sl t c.
+Proof. unfold opc. rewrite okind_strip. reflexivity. Qed.
+Lemma opnd_strip sl t s : opnd sl (strip_all t) s = opnd sl t s.
+Proof. unfold opnd. rewrite okind_strip. reflexivity. Qed.
+Lemma wa_opc sl t c : wa (opc sl t c) = wa c.
+Proof. unfold opc. destruct (operand_parens sl (okind_of t) && negb operand_keeps_subc); reflexivity. Qed.
+Lemma opc_set_wa sl t c b : opc sl t (set_wa c b) = set_wa (opc sl t c) b.
+Proof. unfold opc. destruct (operand_parens sl (okind_of t) && negb operand_keeps_subc); reflexivity. Qed.
+Lemma neg_shape_strip {A} (x y z : A) t :
+  match strip_all t with TArith _ _ _ _ => x | TNeg _ => y | _ => z end = match t with TArith _ _ _ _ => x | TNeg _ => y | _ => z end.
+Proof. destruct t; reflexivity. Qed.
+Lemma wa_opc_false sl t c : wa c = false -> wa (opc sl t c) = false.
+Proof. intros H. rewrite wa_opc. exact H. Qed.
+
+Lemma wa_opc_setwa sl t c : wa (opc sl t (set_wa c false)) = false.
+Proof. rewrite wa_opc. reflexivity. Qed.
+
 Lemma andb3 a b : a && b = true -> a = true /\ b = true.
 Proof. apply andb_prop. Qed.
 
@@ -78,25 +97,42 @@ Proof.
   - (* TValRaw *) intros s a c _ H. cbn [quiet] in H. noalias a H. reflexivity.
   - (* TLit *) intros s a c _ H. cbn [quiet] in H. noalias a H. reflexivity.
   - (* TParam *) reflexivity.
-  - (* TNeg *) intros t IH c Hwa H. cbn [quiet] in H. cbn [render strip_all]. rewrite (IH c Hwa H). reflexivity.
+  - (* TNeg *) intros t IH c Hwa H. cbn [quiet] in H. cbn [render strip_all].
+    rewrite opc_strip, neg_shape_strip, (IH (opc SNeg t c) (wa_opc_false _ _ _ Hwa) H).
+    destruct (render (opc SNeg t c) (strip_all t)); [|reflexivity]. cbn [bind]. rewrite opnd_strip. reflexivity.
   - (* TArith *) intros op l IHl r IHr a c Hwa H. cbn [quiet] in H. split_and H. cbn [render strip_all].
-    rewrite (IHl (set_wa c false) eq_refl H), (IHr (set_wa c false) eq_refl Hq), !top_op_strip, Hwa. reflexivity.
+    rewrite !opc_strip, (IHl (opc SArithL l (set_wa c false)) (wa_opc_setwa _ _ _) H),
+            (IHr (opc SArithR r (set_wa c false)) (wa_opc_setwa _ _ _) Hq), !top_op_strip, Hwa.
+    destruct (render (opc SArithL l (set_wa c false)) (strip_all l)); [|reflexivity].
+    destruct (render (opc SArithR r (set_wa c false)) (strip_all r)); [|reflexivity].
+    cbn [bind]. rewrite !opnd_strip. reflexivity.
   - (* TBasic *) intros cm l IHl r IHr a c Hwa H. cbn [quiet] in H. split_and H. cbn [render strip_all].
-    rewrite (IHl (set_wa c false) eq_refl H), (IHr (set_wa c false) eq_refl Hq), Hwa. reflexivity.
+    rewrite !opc_strip, (IHl (opc SCmpL l (set_wa c false)) (wa_opc_setwa _ _ _) H),
+            (IHr (opc SCmpR r (set_wa c false)) (wa_opc_setwa _ _ _) Hq), Hwa.
+    destruct (render (opc SCmpL l (set_wa c false)) (strip_all l)); [|reflexivity].
+    destruct (render (opc SCmpR r (set_wa c false)) (strip_all r)); [|reflexivity].
+    cbn [bind]. rewrite !opnd_strip. reflexivity.
   - (* TCplx *) intros bo l IHl r IHr a c Hwa H. cbn [quiet] in H. split_and H. cbn [render strip_all].
     rewrite !top_bop_strip.
     rewrite (IHl (set_subc c (needs_brackets_x bo (top_bop l))) Hwa H), (IHr (set_subc c (needs_brackets_x bo (top_bop r))) Hwa Hq).
     reflexivity.
   - (* TIn *) intros t IHt cont IHc neg a c Hwa H. cbn [quiet] in H. split_and H. noalias a H. cbn [render strip_all].
-    rewrite (IHt (set_subq c false) Hwa Hq0), (IHc (set_subq c true) Hwa Hq). reflexivity.
+    rewrite opc_strip, (IHt (opc SInTerm t (set_subq c false)) (wa_opc_false _ _ _ Hwa) Hq0), (IHc (set_subq c true) Hwa Hq).
+    destruct (render (opc SInTerm t (set_subq c false)) (strip_all t)); [|reflexivity]. cbn [bind]. rewrite opnd_strip. reflexivity.
   - (* TBetween *) intros t IHt lo IHlo hi IHhi a c Hwa H. cbn [quiet] in H. split_and H. noalias a H. cbn [render strip_all].
-    rewrite (IHt c Hwa Hq1), (IHlo c Hwa Hq0), (IHhi c Hwa Hq). reflexivity.
+    rewrite !opc_strip, (IHt (opc SBetTerm t c) (wa_opc_false _ _ _ Hwa) Hq1), (IHlo (opc SBetLo lo c) (wa_opc_false _ _ _ Hwa) Hq0),
+            (IHhi (opc SBetHi hi c) (wa_opc_false _ _ _ Hwa) Hq).
+    destruct (render (opc SBetTerm t c) (strip_all t)); [|reflexivity].
+    destruct (render (opc SBetLo lo c) (strip_all lo)); [|reflexivity].
+    destruct (render (opc SBetHi hi c) (strip_all hi)); [|reflexivity]. cbn [bind]. rewrite !opnd_strip. reflexivity.
   - (* TBitAnd *) intros t IHt v a c Hwa H. cbn [quiet] in H. split_and H. noalias a H. cbn [render strip_all].
     rewrite (IHt c Hwa Hq). reflexivity.
   - (* TIsNull *) intros t IHt a c Hwa H. cbn [quiet] in H. split_and H. noalias a H. cbn [render strip_all].
-    rewrite (IHt (set_wa c false) eq_refl Hq). reflexivity.
+    rewrite opc_strip, (IHt (opc SIsNull t (set_wa c false)) (wa_opc_setwa _ _ _) Hq).
+    destruct (render (opc SIsNull t (set_wa c false)) (strip_all t)); [|reflexivity]. cbn [bind]. rewrite opnd_strip. reflexivity.
   - (* TNotNull *) intros t IHt a c Hwa H. cbn [quiet] in H. split_and H. noalias a H. cbn [render strip_all].
-    rewrite (IHt (set_wa c false) eq_refl Hq). reflexivity.
+    rewrite opc_strip, (IHt (opc SNotNull t (set_wa c false)) (wa_opc_setwa _ _ _) Hq).
+    destruct (render (opc SNotNull t (set_wa c false)) (strip_all t)); [|reflexivity]. cbn [bind]. rewrite opnd_strip. reflexivity.
   - (* TNot *) intros t IHt a c Hwa H. cbn [quiet] in H. split_and H. noalias a H. cbn [render strip_all].
     rewrite (IHt (set_subc c true) Hwa Hq). reflexivity.
   - (* TAll *) intros t IHt a c Hwa H. cbn [quiet] in H. split_and H. noalias a H. cbn [render strip_all].
